@@ -605,7 +605,9 @@ def obj2bytes(obj):
     elif isinstance(obj, tuple):
         return obj2bytes(list(obj))
     elif isinstance(obj, list):
-        return b"".join(obj2bytes(o) for o in obj)
+        # (separate the items: without a separator, e.g. [1.0, 10.0]
+        # and [1.01, 0.0] would have the same representation)
+        return b"[" + b",".join(obj2bytes(o) for o in obj) + b"]"
     elif isinstance(obj, dict):
         return obj2bytes(sorted(obj.items()))
     elif isinstance(obj, lmfit.parameter.Parameter):
